@@ -57,6 +57,11 @@ impl OutputFormat for Seq {
         for ch in data {
             let _ = p.print_char(&mut result, 0, &mut caret, *ch as char);
         }
+        // the layer grows with the text, the buffer has to follow
+        let height = result.layers[0].get_height();
+        if height > result.get_height() {
+            result.set_height(height);
+        }
         Ok(result)
     }
 }
